@@ -159,6 +159,15 @@ def padded(table):
     return False
 
 
+def webhook_body_lost(flow, f2):
+    """some call_webhook action of `flow` has a body and comes back with a blank one"""
+    def hooks(f):
+        return [a for n in f["nodes"] for a in n.get("actions", []) if a.get("type") == "call_webhook"]
+    a, b = hooks(flow), hooks(f2)
+    return any(x.get("body") for x in a) and len(a) == len(b) and any(x.get("body") and not y.get("body") for x, y in zip(
+        sorted(a, key=lambda h: (h.get("url", ""), h.get("result_name", ""))), sorted(b, key=lambda h: (h.get("url", ""), h.get("result_name", "")))))
+
+
 def grouping(flow):
     return sorted((n["uuid"], json.dumps([flowutil.canon_action(a) for a in n.get("actions", [])], sort_keys=True)) for n in flow["nodes"])
 
@@ -206,7 +215,7 @@ def judge(ctx, doc, nontrivial, samples, label):
                 fail("export-fails", f"flows_to_sheets fails: {r[1]} {r[2][:150]}", key)
             else:
                 key = None
-                if is_padded and ("To merge rows" in r[2] or "number of destinations" in r[2]):
+                if is_padded and ("To merge rows" in r[2] or "number of destinations" in r[2] or "does not support default exits" in r[2]):
                     key = "padded-edge-columns"
                 elif "AssertionError" in r[1] and webhook_with_headers(flow):
                     key = "webhook-headers"
@@ -224,7 +233,9 @@ def judge(ctx, doc, nontrivial, samples, label):
             ok = tr is None
         if not ok:
             key = None
-            if unconnected_case(flow):
+            if webhook_body_lost(flow, f2) and "call_webhook" in str(tr[-1]):
+                key = "webhook-body-shadowed"
+            elif unconnected_case(flow):
                 key = "unconnected-non-default-category"
             elif is_padded:
                 key = "padded-edge-columns"
